@@ -1167,3 +1167,49 @@ def aliasctor(repo):
                    f"alias path excludes virtual targets: {excludes_virtual_target}"]
     res.analysed = [TEMPLATES, wi.rel]
     return res
+
+
+def textsig(repo, templates):
+    """R-TEXTSIG (C07): with --no-cc-enum-traits the generated header does not include emboss_text_util.h, so
+    ::emboss::TextOutputOptions is only forward-declared there.  The views generated for virtual fields are ordinary
+    nested classes whose member definitions are checked when the header is parsed, so a method of theirs may mention
+    the type only behind a reference or pointer.  Every `WriteToTextStream` / `UpdateFromTextStream`-family method in a
+    virtual-field template takes the options as `const ::emboss::TextOutputOptions &`, and the constant and non-constant
+    virtual-field templates declare the same signature (siblings)."""
+    res = RuleResult("R-TEXTSIG")
+    sigs = {}
+    for name, t in templates.templates.items():
+        if "virtual_field" not in name:
+            continue
+        text = t["text"]
+        for m in re.finditer(r"\b(WriteToTextStream|WriteShorthandToTextStream)\s*\(", text):
+            i = m.end() - 1
+            d, j = 0, i
+            while j < len(text):
+                if text[j] == "(":
+                    d += 1
+                elif text[j] == ")":
+                    d -= 1
+                    if d == 0:
+                        break
+                j += 1
+            after = text[j + 1:j + 40]
+            if not re.match(r"\s*(const)?\s*\{", after):
+                continue                      # a call, not a definition
+            params = " ".join(text[i + 1:j].split())
+            sigs.setdefault(m.group(1), {})[name] = params
+            res.instances += 1
+            for p in params.split(","):
+                if "TextOutputOptions" in p and not ("&" in p or "*" in p):
+                    res.add(f"{TEMPLATES}|{name}|{m.group(1)}|by-value", f"template {name}: {m.group(1)} takes `{p.strip()}` by value; "
+                            "::emboss::TextOutputOptions is an incomplete type in headers generated with --no-cc-enum-traits, so "
+                            "the header does not compile (`has incomplete type`)", TEMPLATES, 0, name)
+    for meth, per in sigs.items():
+        vals = {re.sub(r"\s*&\s*", " &", v) for v in per.values()}
+        if len(vals) > 1:
+            res.add(f"{TEMPLATES}|{meth}|siblings", f"the virtual-field templates declare {meth} with different parameter lists: "
+                    f"{sorted(vals)}", TEMPLATES, 0, meth)
+    if res.instances < 2 and not res.findings:
+        raise AnalysisError(f"only {res.instances} text-output methods found in the virtual-field templates")
+    res.analysed = [TEMPLATES]
+    return res
